@@ -1404,6 +1404,11 @@ impl<'v> World<'v> {
                         self.cfg.payload_sizes[i]
                     }
                 };
+                let retain = {
+                    let n = self.cfg.pub_retain.len();
+                    let i = self.decide_arg(n);
+                    self.cfg.pub_retain[i]
+                };
                 self.reqs_done += 1;
                 let (seq, payload) = if op == OpK::Pub0 {
                     (None, vec![0xEE; size.max(1)])
@@ -1415,11 +1420,12 @@ impl<'v> World<'v> {
                 self.log(|| format!("api: {} (request {:?}, {} payload bytes)", op.name(), seq, payload.len()));
                 self.sh.borrow_mut().oracle.op_begin(op.name(), seq);
                 let retained0 = conn.session().verif_runtime().retained;
-                let r = self.drive(
-                    conn.publish(Publication::bytes("t", &payload).qos(qos)),
-                    Some(id),
-                    op != OpK::Pub0,
-                );
+                let publication = if retain {
+                    Publication::bytes("t", &payload).qos(qos).retain()
+                } else {
+                    Publication::bytes("t", &payload).qos(qos)
+                };
+                let r = self.drive(conn.publish(publication), Some(id), op != OpK::Pub0);
                 let retained1 = conn.session().verif_runtime().retained;
                 let res = match &r {
                     None => Res::Cancelled,
@@ -1671,6 +1677,11 @@ impl<'v> World<'v> {
             if res == Res::Cancelled || res.fatal() {
                 break;
             }
+            if res == Res::PacketTooLarge && !last_chance {
+                // a retained packet does not fit this broker's Maximum Packet Size: nothing can move on
+                // this connection; the application drops it and reconnects
+                break;
+            }
         }
         {
             let c: &Connection<'_, '_, VirtualIo> = conn;
@@ -1691,7 +1702,7 @@ impl<'v> World<'v> {
         }
         if !quiescent && !last_chance {
             let sh = self.sh.borrow();
-            let lost = last.fatal() || sh.oracle.conns[id].torn || sh.broker.conn_closed || sh.conns[id].closed;
+            let lost = last.fatal() || last == Res::PacketTooLarge || sh.oracle.conns[id].torn || sh.broker.conn_closed || sh.conns[id].closed;
             if lost {
                 return false;
             }
@@ -1767,7 +1778,13 @@ impl<'v> World<'v> {
         }
         // "exactly once by the end" for everything that had to be replayed on this connection
         let missing = sh.oracle.conns[id].must_replay.clone();
+        let limit = sh.oracle.conns[id].max_packet;
         for (seq, as_rel) in missing {
+            // Maximum Packet Size of this connection forbids the retransmission (property C14)
+            let too_large = !as_rel && limit.is_some_and(|m| sh.oracle.reqs[seq as usize].first.as_ref().is_some_and(|f| f.len() as u64 > m as u64));
+            if too_large {
+                continue;
+            }
             let kind = sh.oracle.reqs[seq as usize].kind;
             let (prop, rule) = match kind {
                 ReqKind::Pub1 => ("C02", "Q1-not-replayed"),
